@@ -137,8 +137,42 @@ def replay_table(call):
         return dict(fails=True, detail='dictable(k=%r).sort("k") raised %r' % (keys, e))
 
 
+def _same_leaves(r, v):
+    """r is v itself for a scalar; for a tuple / list a container of the same class and length whose elements have the same leaves"""
+    if isinstance(v, (tuple, list)):
+        return type(r) is type(v) and len(r) == len(v) and all(_same_leaves(p, q) for p, q in zip(r, v))
+    return r is v
+
+
+def replay_as_primitive(call):
+    """as_primitive on the model's value (when it can be rebuilt) and on a fixed battery of the deductive universe: every scalar must come back as
+    the very same object, tuples / lists as containers of the same class and shape with the very same leaves; nothing may raise"""
+    from pyg_base._as_primitive import as_primitive
+    D_ = datetime.datetime
+    nan = float('nan')
+    big = 2 ** 53
+    scalars = [None, True, False, 0, 1, -7, big, -big, 0.0, -0.0, 1.5, nan, float('inf'), float('-inf'), '', 'a', 'ab', D_(2000, 1, 1), D_(2024, 2, 29, 13, 5, 7, 11)]
+    battery = list(scalars) + [(), [], (1, 'a', None), [nan, (2.5, [True, D_(2001, 1, 1)])], ([], ()), [[1], [2.0, 'x']]]
+    try:
+        battery.insert(0, Builder(call).get('x'))
+    except (Unbuildable, KeyError, TypeError, ValueError):
+        pass
+    probs = []
+    for v in battery:
+        try:
+            r = as_primitive(v)
+        except Exception as e:      # noqa
+            probs.append('as_primitive(%r) raised %r' % (v, e))
+            continue
+        if not _same_leaves(r, v):
+            probs.append('as_primitive(%r) = %r (%s): not the same object / not the same leaves' % (v, r, type(r).__name__))
+    return dict(fails=bool(probs), detail='; '.join(probs[:3]) if probs else 'as_primitive returns the very same leaves on %d values of the universe' % len(battery))
+
+
 def replay(call):
     from pyg_base._sort import cmp, cmparr
+    if call.get('kind', '') == 'as_primitive':
+        return replay_as_primitive(call)
     if call.get('kind', '') == 'dictable.sort':
         return replay_table(call)
     if call.get('kind', '') in ('sort', 'has_nan') or call.get('kind', '').startswith('sort.lemma'):
